@@ -2146,7 +2146,8 @@ def preprocess_file(
             i0 = 0
             out_line = ""
             for match in FRegex.WORD.finditer(line):
-                if match.group(0) in defs:
+                # The bare name of a function-like macro is not an invocation
+                if isinstance(defs.get(match.group(0)), str):
                     out_line += line[i0 : match.start(0)] + defs[match.group(0)]
                 else:
                     out_line += line[i0 : match.start(0)] + "False"
